@@ -8,7 +8,8 @@ CONFIGS_QUICK = ["ws"]
 CONFIGS_THOROUGH = ["ws", "nostd_nohash", "release"]
 TECHNIQUE = ("per-frame reset coverage over MIR effects, mirror-order comparison of encoder bitstream writes with the "
              "decoder's read order, state-commit pairing on the raw-fallback path, block-loop exit/flag provenance "
-             "(COVER/ORDER/PAIR/PROV rules)")
+             "(COVER/ORDER/PAIR/PROV rules); writer-side header layouts and code tables compared with the RFC 8878 "
+             "oracle by bit-provenance abstract interpretation and match-arm tables (LAYOUT/TABLE rules shared with C14)")
 EXPLANATION = (
     "Decided: (a) nothing from an earlier frame survives in the compressor — compress() resets matcher, remembered "
     "Huffman table and hasher before the first source read; the built-in matcher's reset covers every field of the "
@@ -21,7 +22,10 @@ EXPLANATION = (
     "is cleared (a table is only remembered if the block carrying it was emitted); (d) block loop — every byte read "
     "is appended at read_bytes, the buffer is truncated to the bytes read, hashed, and handed to exactly one "
     "emission; the loop is left only after a header with last_block = true was serialised (empty-input case "
-    "included); each header's last_block is the loop's flag, which is true iff the source returned 0. "
+    "included); each header's last_block is the loop's flag, which is true iff the source returned 0; (e) wire "
+    "format — the frame header, block header, literals-section header (type, size format per literal count range, "
+    "field widths), sequence count, modes byte and LL/ML/OF code tables the encoder writes equal RFC 8878 "
+    "(every value range maps to the code/format whose field can hold it). "
     "Not decided: round-trip equality for all inputs; acceptance by the reference decoder.")
 ASSUMPTIONS = ["the decoder side order is C01's (RFC) order", "Vec::drain(..) empties the vector once the iterator is consumed"]
 
@@ -306,6 +310,23 @@ def run(ctx):
         ctx.check(len(ub) == 1 and "read_bytes.try_into().unwrap()" in H.show(ub[0]), RL, "compress::uncompressed-size-is-bytes-read", b["file"],
                   "a raw block's size is the number of bytes read")
     ctx.guard(RL, "block_loop", block_loop)
+
+    # ---- wire format of what the compressor writes -------------------------------------------------------
+    # "the frame is valid Zstandard": every header / code the encoder serialises is compared with the RFC 8878
+    # oracle (same rule instances as C14's writer side, recorded here under C02.wire.*)
+    WRITER = {("C14.table.value-codes", "encode_literal_length"), ("C14.table.value-codes", "encode_match_len"),
+              ("C14.table.offset-codes", "offset"), ("C14.layout.frame-header-writer", "writer"),
+              ("C14.layout.block-header", "writer"), ("C14.layout.literals-header", "writers"),
+              ("C14.layout.modes-byte", "writer"), ("C14.table.seq-count", "reader"), ("C14.table.seq-count", "writer")}
+    before = len(ctx.obs)
+    ctx.only = lambda rule, key: (rule, key) in WRITER
+    ctx.rename = lambda rule: "C02.wire." + rule.split(".", 1)[1] if rule.startswith("C14.") else rule
+    try:
+        c14.run(ctx)
+    finally:
+        ctx.only = None
+        ctx.rename = None
+    ctx.floor("C02.wire", len([o for o in ctx.obs[before:] if o.cfg == ctx.cfg]), 60, "writer-side wire-format obligations")
 
 
 def _repeat_unreachable(ctx):
